@@ -14,6 +14,7 @@ Section C17.
   Variable build : data -> objs.
   Variable engine : string.
   Notation add' := (add data objs build engine gen_mgr).
+  Notation add_blocked' := (add_blocked data objs build engine gen_mgr).
   Notation step' := (step data objs build engine gen_mgr).
   Notation run' := (run data objs build engine gen_mgr).
   Notation fmt' := (fmt engine).
@@ -89,9 +90,41 @@ Section C17.
       match o with
       | OAdd _ a _ h true =>
         match lookup a (ms_sources _ st) with None => Some (a, h) | Some _ => ms_default _ st end
+      | OAddBlocked _ a dh h true =>
+        match lookup a (ms_sources _ st) with
+        | None => if rebuild_needed engine (dh_version _ dh) (ch_fp _ (get_h objs (ms_handlers _ st) h))
+                  then ms_default _ st else Some (a, h)
+        | Some _ => ms_default _ st
+        end
       | _ => ms_default _ st
       end.
   Proof. exact (default_only_on_request_p data objs build engine). Qed.
+
+  (* the persistent store refuses the write: the call fails as a whole (no source registered, no default,
+     no handler changed; only the builder ran) ... *)
+  Theorem C17_blocked_add_fails_whole :
+    forall (st : mstate objs) a dh h md,
+      snd (add_blocked' st a dh h md) = WriteFailed ->
+      let st' := fst (add_blocked' st a dh h md) in
+      ms_sources _ st' = ms_sources _ st /\ ms_default _ st' = ms_default _ st /\
+      ms_handlers _ st' = ms_handlers _ st /\ ms_builds _ st' = S (ms_builds _ st) /\
+      snd (add' st a dh h md) = Added true.
+  Proof. exact (blocked_add_fails_whole_p data objs build engine). Qed.
+  (* ... so that the same call, retried once the store accepts writes, rebuilds and ends where the first
+     call would have ended *)
+  Theorem C17_retry_after_blocked_add :
+    forall (st : mstate objs) a dh h md,
+      snd (add_blocked' st a dh h md) = WriteFailed ->
+      let st1 := fst (add_blocked' st a dh h md) in
+      snd (add' st1 a dh h md) = Added true /\
+      ms_sources _ (fst (add' st1 a dh h md)) = ms_sources _ (fst (add' st a dh h md)) /\
+      ms_default _ (fst (add' st1 a dh h md)) = ms_default _ (fst (add' st a dh h md)) /\
+      ms_handlers _ (fst (add' st1 a dh h md)) = ms_handlers _ (fst (add' st a dh h md)).
+  Proof. exact (retry_after_blocked_add_p data objs build engine). Qed.
+  Theorem C17_blocked_store_matters_only_for_rebuilds :
+    forall (st : mstate objs) a dh h md,
+      snd (add_blocked' st a dh h md) <> WriteFailed -> add_blocked' st a dh h md = add' st a dh h md.
+  Proof. exact (blocked_add_without_rebuild_p data objs build engine). Qed.
 
   (* refinement of get/remove/list (and add) to a finite map alias -> source *)
   Theorem C17_refines_finite_map :
@@ -133,11 +166,15 @@ Example C17_nonvacuous :
                 OAdd nat "tq2" (ex_dh (Some "7") 2) 0 false;    (* unchanged: no rebuild *)
                 OAdd nat "sisi" (ex_dh (Some "8") 3) 0 false;   (* changed version: rebuild *)
                 OAdd nat "x" (ex_dh None 4) 0 false;            (* version None: rebuild *)
-                OGet nat "tq"; OGet nat "sisi"; OList nat; ORemove nat "nope"] in
+                OGet nat "tq"; OGet nat "sisi"; OList nat; ORemove nat "nope";
+                OAddBlocked nat "y" (ex_dh (Some "9") 5) 1 true;  (* store refuses the write *)
+                OGet nat "y";
+                OAdd nat "y" (ex_dh (Some "9") 5) 1 false] in    (* retried: rebuilds *)
   snd r = [BAdd (Added true); BAdd ExistingSource; BRemove true; BAdd (Added false);
            BAdd (Added true); BAdd (Added true); BGet None; BGet (Some ("sisi", 0));
-           BList ["tq2"; "sisi"; "x"]; BRemove false] /\
-  ms_builds _ (fst r) = 3 /\ ms_default _ (fst r) = Some ("tq", 0) /\
+           BList ["tq2"; "sisi"; "x"]; BRemove false;
+           BAdd WriteFailed; BGet None; BAdd (Added true)] /\
+  ms_builds _ (fst r) = 5 /\ ms_default _ (fst r) = Some ("tq", 0) /\
   ch_fp _ (get_h nat (ms_handlers _ (fst r)) 0) = JStr "None_0.0.0.dev10" /\
   ch_cont _ (get_h nat (ms_handlers _ (fst r)) 0) = Some 40.
 Proof. vm_compute. repeat split. Qed.
@@ -149,5 +186,8 @@ Print Assumptions C17_after_add_current.
 Print Assumptions C17_second_add_no_rebuild.
 Print Assumptions C17_alias_unique.
 Print Assumptions C17_default_only_on_request.
+Print Assumptions C17_blocked_add_fails_whole.
+Print Assumptions C17_retry_after_blocked_add.
+Print Assumptions C17_blocked_store_matters_only_for_rebuilds.
 Print Assumptions C17_refines_finite_map.
 Print Assumptions C17_invariant_all_histories.
